@@ -44,6 +44,7 @@ import BGV
 #print axioms BGV.C04_dir_outDegree
 #print axioms BGV.C04_dir_adjacencyMatrix
 #print axioms BGV.C04_und_degree
+#print axioms BGV.C04_und_adjacencyMatrix
 #print axioms BGV.C04_und_inv_reachable
 #print axioms BGV.C04_und_refines
 #print axioms BGV.C04_und_getEdgeMultiplicity
